@@ -261,6 +261,24 @@ def release_is_contiguous(ctx):
             trimmed = any(isinstance(n, ast.Assign) and isinstance(n.value, ast.Subscript) and isinstance(n.value.slice, ast.Slice) for n in ast.walk(loop))
             ctx.ob(f, 'overlapping queued data is trimmed before release', trimmed, 'with <= the head of the queue may overlap released bytes and must be trimmed')
         ctx.ob(f, "released 'offset' is the popped/trimmed offset", ov is not None and isinstance(ov, (ast.Name, ast.Subscript)), f'offset value {norm(ov)}')
+    # every trim `X = X[L:]` in request_writes drops exactly the overlap with the released prefix: L == self._next_offset - <offset of X>
+    from ..poly import equal as _peq
+    pairs = {f.params[2]: f.params[1]}
+    for n in own_nodes(f.node):
+        if isinstance(n, ast.Assign) and isinstance(n.targets[0], ast.Tuple) and len(n.targets[0].elts) == 2 and isinstance(n.value, ast.Call) and norm(n.value.func) == 'heapq.heappop' \
+                and all(isinstance(e, ast.Name) for e in n.targets[0].elts):
+            pairs[n.targets[0].elts[1].id] = n.targets[0].elts[0].id
+    ntr = 0
+    for n in own_nodes(f.node):
+        if isinstance(n, ast.Assign) and len(n.targets) == 1 and isinstance(n.targets[0], ast.Name) and isinstance(n.value, ast.Subscript) and isinstance(n.value.slice, ast.Slice) \
+                and isinstance(n.value.value, ast.Name) and n.value.value.id == n.targets[0].id and n.targets[0].id in pairs:
+            ntr += 1
+            lo, hi = n.value.slice.lower, n.value.slice.upper
+            off = pairs[n.targets[0].id]
+            lo_i = q.inline_locals(f, lo) if lo is not None else None
+            ok_t = lo is not None and hi is None and _peq(lo_i, f'self._next_offset - {off}')
+            ctx.ob(f, n, ok_t, f'a trim must drop exactly the bytes already released: {n.targets[0].id}[self._next_offset - {off}:]; a wrong index keeps written bytes or drops unwritten ones')
+    ctx.ob(f, 'overlap trims found', ntr >= 1, 'request_writes no longer trims data that overlaps the released prefix')
     pops = [c for c in ast.walk(loop) if isinstance(c, ast.Call) and norm(c.func) == 'heapq.heappop']
     ctx.ob(f, 'heapq.heappop(self._writes) yields the smallest offset', len(pops) == 1 and norm(pops[0].args[0]) == 'self._writes', 'writes must be released in ascending offset order')
     pushes = [c for c in own_calls(f.node) if norm(c.func) == 'heapq.heappush']
